@@ -1,6 +1,7 @@
 """property -> rules, explanation, trusted base"""
 import functools
 import gc_rules as G
+import listing as L
 
 CONTAINERS = "emap 0.0.13 / micromap 0.0.19 / microstack 0.0.7 as audited (DESIGN §3)"
 HAND = "hand argument DESIGN §5.0: rules ⇒ invariants I1–I3 ⇒ statement"
@@ -52,5 +53,23 @@ PROPS = {
                        "the tables (GC6d), membership pairing (GC5).",
         "trusted": [RUSTC, CONTAINERS, HAND],
         "assumptions": ["fewer than 14 groups alive is the precondition under which the search succeeds"],
+    },
+    "C18": {
+        "claim": "Decides the structural clauses XP1–XP4 of to_xml()/to_dot(): per-vertex emission is control-dependent on the slot's tag being non-zero (sibling rule over keys / Debug / to_xml / to_dot), vertices come from the ascending store iteration or a sort by id and edges pass a sort by label, one edge entry per item of the vertex's edge map with that item's label and target and no condition on the edge, and the data entry is guarded by persistence ∉ {Empty} (nothing narrower) and prints that vertex's data. Does not decide well-formedness/escaping of the produced text.",
+        "note": "Trusted: rustc front end + engine; emap iteration is ascending and skips no Some slot; itertools sorted_by_key is a stable sort. The text-level clause (document parses back) is not decided.",
+        "technique": "MIR guard + iterator-chain (taint/sanitiser) + provenance rules",
+        "rules": [("XP1", L.xp1), ("XP2", L.xp2), ("XP3", L.xp3), ("XP4", L.xp4)],
+        "explanation": "XP1 present filter (sibling rule, floor 4 listings), XP2 ascending vertex order and label-sorted edges, XP3 one unconditional entry per edge with its label and target, XP4 data entry iff has-data.",
+        "trusted": [RUSTC, CONTAINERS],
+        "assumptions": ["labels need no XML escaping (property precondition)"],
+    },
+    "C20": {
+        "claim": "Decides IN1–IN4: the recursive descent of inspect() is control-dependent on the target not being in the visited set and vertices are marked before descending (termination on cycles); one unconditional line per edge of the visited vertex with its label and target; Debug/Display list a slot only if its tag is non-zero, with every edge and the data iff has-data; v_print selects the data marker by persistence ∉ {Empty} of the printed vertex and lists one label per edge of that vertex.",
+        "note": "Trusted: rustc front end + engine; std HashSet. Exactly-once listing follows from marked-before-descent + unconditional per-edge line (hand argument).",
+        "technique": "MIR guarded-recursion + guard/provenance rules",
+        "rules": [("IN1", L.in1), ("IN2", L.in2), ("IN3", L.in3), ("IN4", L.in4)],
+        "explanation": "IN1 guarded recursion, IN2 per-edge line, IN3 Debug/Display present filter + edges + data, IN4 v_print marker and labels.",
+        "trusted": [RUSTC, CONTAINERS],
+        "assumptions": [],
     },
 }
